@@ -226,25 +226,67 @@ def failing_theorems(pid, log):
 
 # ---------------------------------------------------------------------------------------------- pipeline
 
+def _harness(pid, scripts, src, ann, append=False, timeout=600):
+    with open(src, "w") as f:
+        for sc in scripts:
+            f.write("reset\n")
+            for l in sc:
+                f.write(l + "\n")
+    with open(src) as fin, open(ann, "a" if append else "w") as fout:
+        try:
+            p = subprocess.run([HARNESS, "run", pid], stdin=fin, stdout=fout, stderr=subprocess.PIPE, text=True, timeout=timeout,
+                               env=dict(os.environ, GOMEMLIMIT="4GiB"))
+            return p.returncode, p.stderr
+        except subprocess.TimeoutExpired:
+            return -9, "harness timed out (possible non-termination in the implementation)"
+
+
 def run_scripts(pid, scripts, tag="main"):
-    """scripts: list of list-of-lines. Returns dict(summary, bad=[(script_idx, line_idx, kind, detail)], annotated lines)."""
+    """scripts: list of list-of-lines. Returns dict(summary, bad=[(script_idx, line_idx, kind, detail, line)], annotated lines).
+    If the harness PROCESS dies on a script (a panic recover() cannot catch, a fatal error such as a stack overflow on a cyclic
+    structure, a hang) that is behaviour of the code under test: the script is reported as a counterexample and the run goes on
+    with the following scripts (the harness flushes at every script boundary, so the culprit is the first incomplete block)."""
     wd = os.path.join(WORK, pid)
     os.makedirs(wd, exist_ok=True)
-    src = os.path.join(wd, tag + ".ops")
-    owner = []  # per physical line: (script idx, line idx) or None
-    with open(src, "w") as f:
-        for si, sc in enumerate(scripts):
-            f.write("reset\n")
-            owner.append(None)
-            for li, l in enumerate(sc):
-                f.write(l + "\n")
-                owner.append((si, li))
-    ann = os.path.join(wd, tag + ".ann")
-    with open(src) as fin, open(ann, "w") as fout:
-        p = subprocess.run([HARNESS, "run", pid], stdin=fin, stdout=fout, stderr=subprocess.PIPE, text=True, timeout=3000)
-    if p.returncode != 0:
-        raise Internal("harness failed (rc=%d): %s" % (p.returncode, p.stderr[-2000:]))
-    return judge_file(pid, ann, owner)
+    src, ann = os.path.join(wd, tag + ".ops"), os.path.join(wd, tag + ".ann")
+    crashed, keep = [], []
+    start = 0
+    open(ann, "w").close()
+    while start < len(scripts):
+        part = os.path.join(wd, tag + ".part.ann")
+        rc, err = _harness(pid, scripts[start:], src, part, timeout=120 if len(crashed) else 900)
+        text = open(part).read()
+        if rc == 0:
+            open(ann, "a").write(text)
+            keep += list(range(start, len(scripts)))
+            break
+        # complete blocks = all but the last started one
+        blocks = text.split("reset\n")[1:]
+        done = max(len(blocks) - 1, 0)
+        if not text.endswith("\n") and blocks:
+            pass
+        open(ann, "a").write("".join("reset\n" + b for b in blocks[:done]))
+        keep += list(range(start, start + done))
+        culprit = start + done
+        last = [l for l in err.strip().splitlines() if l.strip()]
+        head = next((l for l in last if l.startswith(("fatal error", "panic:", "runtime:", "harness timed out"))), last[0] if last else "rc=%d" % rc)
+        crashed.append((culprit, head))
+        start = culprit + 1
+        if len(crashed) >= 4:
+            break
+    owner = []
+    for si in keep:
+        owner.append(None)
+        for li in range(len(scripts[si])):
+            owner.append((si, li))
+    r = judge_file(pid, ann, owner)
+    for i, head in crashed:
+        if i < len(scripts):
+            r["bad"].append((i, len(scripts[i]) - 1, "cex", "the harness process died while executing this script on the implementation: " + head,
+                             scripts[i][-1] if scripts[i] else ""))
+            r["summary"]["cex"] = str(int(r["summary"].get("cex", 0)) + 1)
+    r["crashed_scripts"] = [i for i, _ in crashed]
+    return r
 
 
 def judge_file(pid, ann, owner=None):
